@@ -243,7 +243,7 @@ theorem mergeBase_err {le rel : Nat → Nat → Bool} {a b : Nat} (h : mergeBase
   split at h
   · simp at h
   · rename_i hc
-    simpa [Bool.or_eq_true, not_or] using hc
+    simpa [Bool.or_eq_true, not_or, and_assoc] using hc
 
 theorem mergeBase_base {le rel : Nat → Nat → Bool} {a b : Nat} {x y : Bool}
     (h : mergeBase le rel a b = .base x y) : x = le a b ∧ y = le b a := by
@@ -262,7 +262,7 @@ theorem inner_spec (le rel : Nat → Nat → Bool) (head votes : Nat) (rest cand
   | nil =>
     simp only [inner, Except.ok.injEq] at h
     subst h
-    simp [sup, dsc]
+    exact ⟨by simp [sup, dsc], id, fun _ h => h, fun _ h => Or.inl h⟩
   | cons p rest ih =>
     obtain ⟨o, ov⟩ := p
     simp only [inner] at h
@@ -278,7 +278,9 @@ theorem inner_spec (le rel : Nat → Nat → Bool) (head votes : Nat) (rest cand
         refine ⟨?_, ?_, ?_, ?_⟩
         · intro k
           rw [i1 k, wt_bump]
-          by_cases hk : head = k <;> simp [hk, sup, dsc, hA] <;> omega
+          by_cases hk : head = k
+          · subst hk; simp [sup, dsc, hA]; omega
+          · simp [hk, sup, dsc, hA]
         · intro hs; exact i2 (sorted_bump _ _ _ hs)
         · intro k hk; exact i3 k ((mem_keys_bump _ _ _ _).mpr (Or.inr hk))
         · intro k hk
@@ -297,7 +299,9 @@ theorem inner_spec (le rel : Nat → Nat → Bool) (head votes : Nat) (rest cand
           refine ⟨?_, ?_, ?_, ?_⟩
           · intro k
             rw [i1 k, wt_bump]
-            by_cases hk : o = k <;> simp [hk, sup, dsc, hA, hB] <;> omega
+            by_cases hk : o = k
+            · subst hk; simp [sup, dsc, hA, hB]; omega
+            · simp [hk, sup, dsc, hA, hB]
           · intro hs; exact i2 (sorted_bump _ _ _ hs)
           · intro k hk; exact i3 k ((mem_keys_bump _ _ _ _).mpr (Or.inr hk))
           · intro k hk
